@@ -518,7 +518,7 @@ package channels
 //@     foreach S in statuses(Cancelling, Failing) :: forall s State :: s.Status == S ==> step(s, E).Status == S
 //@     -- while cancelling / failing, only the ending events themselves can move the channel: late protocol events are recorded, never acted on
 
-//@ lemma [restart-resumes-cleanup] {C06,C09}: foreach S in statuses(Cancelling, Failing, Completing) :: forall s State ::
+//@ lemma [restart-resumes-cleanup] {C06,C09,C10}: foreach S in statuses(Cancelling, Failing, Completing) :: forall s State ::
 //@     s.Status == S ==> applied(s, CompleteCleanupOnRestart) && entryRuns(s, CompleteCleanupOnRestart) && step(s, CompleteCleanupOnRestart).Status == S
 //@     -- a channel persisted while cleaning up: the restart event is accepted in each cleanup status and re-runs that status's entry function
 
